@@ -73,7 +73,7 @@ claim("C14", "E5",
       "static analysis: structural rules over the file-name derivation (match-arm exhaustiveness, literal distinctness, format-spec scan from the AST), serde attribute census, restore-path call confinement",
       "Static decision of the structural clauses of C14 only (P1-P4): distinct work-id variants map to distinct file names at the variant level, no "
       "lossy (precision) formatting in a persisted file name, no undocumented serde(skip) on persisted types, disk reads confined to the restore path, "
-      "(P5) every metacharacter string_to_filename introduces is itself reserved, (P6) hand-written Serialize/Deserialize impls on IR/BE types are a reviewed census (a new one is a violation). "
+      "(P5) every metacharacter string_to_filename introduces is itself reserved, (P6) hand-written Serialize/Deserialize impls on IR/BE types are a reviewed census (a new one is a violation), (P7) no field of a serde-derived IR/BE type has a partial serializer (PathBuf/OsString/SystemTime: Persistable::write unwraps, so --emit-ir panics where the plain build succeeds; three FeaturesSource path fields are a known finding). "
       "These are necessary conditions: breaking any of them makes two items share a file or lose a field on read-back for some input. Round-trip "
       "value equality, byte-identity of the font with --emit-ir and string_to_filename injectivity are value-level and NOT decided.",
       "Trusted: rustc MIR and AST (format_args placeholders are read from the expanded AST), tables/e5_tables.json (documented session-only fields).",
@@ -151,8 +151,8 @@ claim("C01", "E2+E1",
       "DESIGN.md section 4")
 
 claim("C18", "E2+E5",
-      "static analysis: the C01 hash-order taint analysis restricted to the name flow (name-id allocation, name table assembly, fvar/STAT references, fea-rs name handling); forward data-flow from the name-id minting calls to output-table fields compared with the fields the remap function writes (sibling agreement)",
-      "Static decision of FOUR clauses of C18: (N5) every name record derived from the source reaches the merge with the feature file's records, which replaces one only on an equal "
+      "static analysis: the C01 hash-order taint analysis restricted to the name flow (name-id allocation, name table assembly, fvar/STAT references, fea-rs name handling); forward data-flow from the name-id minting calls to output-table fields compared with the fields the remap function writes (sibling agreement); path enumeration over the CFG of the NameId lookup predicates against the allocator's reserved-id constants",
+      "Static decision of FIVE clauses of C18: (T7) ids below 256 only where the specification allows - every accepting path of the backend's NameId lookup predicates (fvar, STAT) establishes id >= 256 or id in the reserved set the allocator and the fvar specification agree on (2, 17), and only the default instance may ask for a reserved id (found: subfamilyNameID 1 for a default instance named like the family; repaired); (N5) every name record derived from the source reaches the merge with the feature file's records, which replaces one only on an equal "
       "platform/encoding/language/name-id key (seeded); (T5) the feature-code name-id allocator is advanced on every path of the function that hands an id out "
       "(found: a group of empty names left it untouched and the next group got the same id; repaired); (H) the name table and the name ids other tables refer to do not depend on anything but the source, i.e. "
       "not on per-process hash iteration order; (T4) every output-table field that receives a name id minted by the feature compiler (featureNames, "
